@@ -89,7 +89,20 @@ func vNums(max int) []interface{} {
 
 // vDoc: a small document: array of numbers, object with array / number members, scalar.
 func vDoc() jd.JsonNode {
-	switch vChoice(vParam("DOCS", 3)) {
+	if vParam("STRS", 0) == 1 {
+		// one document in two holds a string
+		if vChoice(2) == 1 {
+			return vDocKind(3)
+		}
+	}
+	return vDocKind(vChoice(vParam("DOCS", 3)))
+}
+
+func vDocKind(k int) jd.JsonNode {
+	if k > 3 {
+		k = 99
+	}
+	switch k {
 	case 0:
 		return vNode(vNums(vParam("N", 2)))
 	case 1:
@@ -101,6 +114,14 @@ func vDoc() jd.JsonNode {
 			m["b"] = vNums(1)
 		}
 		return vNode(m)
+	case 3:
+		// strings that are awkward for a printer: a format verb, a newline, quotes, HTML and
+		// non-ASCII characters — next to a symbolic number
+		str := [...]string{"50%", "%s%d", "a\nb", "é", "<x>&", "\"q\"", "%!(EXTRA)"}[vChoice(7)]
+		if vChoice(2) == 1 {
+			return vNode(map[string]interface{}{"a": str, "b": vF64()})
+		}
+		return vNode([]interface{}{str, vF64()})
 	default:
 		return vNode(vF64())
 	}
